@@ -610,6 +610,15 @@ def run(ctx):
                 pos_cases.append({'bind': [[head, bound_v], [['zz'], 1]], 'e': '%s%s%s' % (ht, sp, member), 'want': want, 'what': what, 'bound': [head, ['zz']]})
             pos_cases.append({'bind': [[head, lst_v], [['zz'], 1]], 'e': 'sum(%s%s%s) + zz' % (ht, sp, member), 'want': 13, 'what': 'path head bound to a list of contexts', 'bound': [head, ['zz']]})
             pos_cases.append({'bind': [[head, lst_v], [['zz'], 1]], 'e': 'count(%s[%s > 4]%s%s)' % (ht, member, sp, member), 'want': 2, 'what': 'path head bound to a list of contexts', 'bound': [head, ['zz']]})
+    # a context entry whose key (a string) is an operator-joined combination of bound names and whose own value is that same text as arithmetic:
+    # the entry's name is bound for the entries that FOLLOW it, not inside its own value (seeded change C10_e: the key entered the parsing
+    # scope as soon as it was read)
+    for sym, val in (('-', 40), ('+', 42), ('*', 41), ('/', 41)):
+        t = 'a%sb' % sym
+        bnd = [[['a'], 41], [['b'], 1]]
+        pos_cases.append({'bind': bnd, 'e': 'get value({"%s": %s}, "%s")' % (t, t, t), 'want': val, 'what': 'entry name inside its own value', 'bound': [['a'], ['b']]})
+        pos_cases.append({'bind': bnd, 'e': '{"%s": %s, c: a %s b}.c' % (t, t, sym), 'want': val, 'what': 'entry name inside its own value', 'bound': [['a'], ['b']]})
+        pos_cases.append({'bind': bnd, 'e': '{"%s": %s + 0, c: %s}.c' % (t, t, t), 'want': val, 'what': 'entry name inside its own value', 'bound': [['a'], ['b']]})
     pimpl = ctx.run_impl('ast', [{'bind': c['bind'], 'e': c['e'], 'mode': 'expr', 'eval': True} for c in pos_cases])
     pk = {}
     for c, g in zip(pos_cases, pimpl):
